@@ -4,7 +4,11 @@
   tree `List Act` (repay any amount, deposit, withdraw, collect fees, transfer out, fail, take another
   loan with its own callback tree …), so every theorem below quantifies over ALL borrower behaviours
   of ANY depth, all loan amounts, all fee triples, native and cw20 assets.
-  (The vault-router path is covered by WW/Props/C06Router.lean.)
+  The vault-router path (router FlashLoan → vault.FlashLoan with the router as borrower → NextLoan =
+  the payload's messages executed as the router → CompleteLoan → after_trade) is the second half of
+  this file: the payload is an arbitrary `List RAct` (fund the router from the borrower contract, send
+  out, pay the vault, collect, deposit, fail, run the borrower contract's whole alphabet, call
+  CompleteLoan early, take another router loan with its own payload …).
 -/
 import WW.Proofs.Vault
 namespace WW.C06
@@ -46,17 +50,6 @@ theorem fee_exact {s s' : St} {amount : Nat} {cb : List Act} (hI : Inv s)
 theorem no_mint_during_loan {s s' : St} {amount : Nat} {cb : List Act} (hI : Inv s)
     (h : loanFrom s amount cb = some s') : s'.sup ≤ s.sup := (loan_spec hI h).supLe
 
-/-- the state in which the borrower's callback starts satisfies the callback invariant -/
-private theorem cb_start {s s1 : St} {amount : Nat} (hI : Inv s)
-    (hp : payOut { s with ctr := s.ctr + 1 } 3 amount = some s1) : CbInv s1 := by
-  obtain ⟨hs1, _, hsum1, hlen1⟩ := payOut_spec (s := { s with ctr := s.ctr + 1 }) (a := 3) (n := amount)
-    hI.abLen (by omega) hp
-  refine ⟨hlen1, ?_, ?_, ?_, ?_⟩
-  · rw [hs1]; exact hI.lbLen
-  · rw [hsum1, hs1]; exact hI.assetSum
-  · rw [hs1]; exact hI.lpSum
-  · rw [hs1]; simp
-
 /-- … and a callback that tries to deposit — at any position — makes the whole loan revert. -/
 theorem deposit_in_callback_reverts {s : St} {amount n : Nat} {cb : List Act} (hI : Inv s)
     (hmem : Act.deposit n ∈ cb) : loanFrom s amount cb = none := by
@@ -71,7 +64,7 @@ theorem deposit_in_callback_reverts {s : St} {amount n : Nat} {cb : List Act} (h
   split
   · rfl
   · rename_i s1 hp
-    rw [runs_deposit_fails (cb_start hI hp) n hmem]
+    rw [runs_deposit_fails (cb_start hI (by omega) hp) n hmem]
 
 /-- A loan taken from inside a callback of the same vault — at any position, with any callback of
     its own — makes the whole transaction revert (the repaired guard). -/
@@ -88,7 +81,7 @@ theorem nested_loan_reverts {s : St} {amount n : Nat} {cb cb' : List Act} (hI : 
   split
   · rfl
   · rename_i s1 hp
-    rw [runs_loan_fails (cb_start hI hp) n cb' hmem]
+    rw [runs_loan_fails (cb_start hI (by omega) hp) n cb' hmem]
 
 /-- The loan counter is back to zero afterwards. -/
 theorem counter_restored {s s' : St} {amount : Nat} {cb : List Act} (hI : Inv s)
@@ -160,15 +153,255 @@ theorem payback_exact {s : St} {amount x : Nat} (hI : Inv s) (hv : s.fees.valid 
     · simp only [afterTradeOk, Bool.and_eq_true, decide_eq_true_eq]
       refine ⟨⟨⟨⟨?_, ?_⟩, ?_⟩, ?_⟩, ?_⟩ <;> omega
 
+/-! ### through the vault router -/
+
+/-- Router path, all or nothing: a router transaction that fails leaves every balance and ledger
+    untouched (the general `failed_changes_nothing` instantiated, for the record). -/
+theorem router_failed_changes_nothing (s : St) (i amount : Nat) (payload : List RAct)
+    (h : step s (.routerLoan i amount payload) = none) :
+    Vault.apply s (.routerLoan i amount payload) = s := failed_changes_nothing s _ h
+
+/-- A successful flash loan through the router ends with the vault's balance higher than before by
+    at least the protocol and the flash-loan fee, whatever the payload did, with the burn fee
+    destroyed — the router loan satisfies the same `LoanSpec` as a direct loan. -/
+theorem router_loan_balance_ge {s s' : St} {i amount : Nat} {payload : List RAct} (hI : Inv s)
+    (hi : i < 4) (h : routerLoanFrom s i amount payload = some s') :
+    s.bal + fee s.fees.prot amount + fee s.fees.flash amount ≤ s'.bal ∧
+    s'.burned = s.burned + fee s.fees.burn amount ∧
+    s'.assetSupply + fee s.fees.burn amount = s.assetSupply :=
+  let L := router_loan_spec hI (by omega) h
+  ⟨L.balGe, L.burned, L.assetSupply⟩
+
+/-- Router path: each fee is exactly `⌊share · loan⌋`. -/
+theorem router_fee_exact {s s' : St} {i amount : Nat} {payload : List RAct} (hI : Inv s)
+    (hi : i < 4) (h : routerLoanFrom s i amount payload = some s') :
+    s'.allTime = s.allTime + amount * s.fees.prot / E18 ∧
+    s'.burned = s.burned + amount * s.fees.burn / E18 ∧
+    s'.pend ≤ s.pend + amount * s.fees.prot / E18 :=
+  let L := router_loan_spec hI (by omega) h
+  ⟨L.allTime, L.burned, L.pendLe⟩
+
+/-- Router path: no vault shares are minted while the loan is outstanding … -/
+theorem router_no_mint_during_loan {s s' : St} {i amount : Nat} {payload : List RAct} (hI : Inv s)
+    (hi : i < 4) (h : routerLoanFrom s i amount payload = some s') : s'.sup ≤ s.sup :=
+  (router_loan_spec hI (by omega) h).supLe
+
+/-- … a payload that tries to deposit — at any position — makes the whole router loan revert … -/
+theorem deposit_in_payload_reverts {s : St} {i amount n : Nat} {payload : List RAct} (hI : Inv s)
+    (hmem : RAct.deposit n ∈ payload) : routerLoanFrom s i amount payload = none := by
+  cases h : routerLoanFrom s i amount payload with
+  | none => rfl
+  | some s' =>
+    obtain ⟨_, _, s1, s2, _, hp, hr, _⟩ := router_loan_parts h
+    rw [rruns_deposit_fails (cb_start hI (by omega) hp) n hmem] at hr
+    cases hr
+
+/-- … and so does a further router flash loan from inside the payload, whatever its own payload
+    (the router is the borrower of the outer loan; the vault refuses a loan while one is in flight). -/
+theorem nested_router_loan_reverts {s : St} {i amount j n : Nat} {payload p' : List RAct} (hI : Inv s)
+    (hmem : RAct.routerLoan j n p' ∈ payload) : routerLoanFrom s i amount payload = none := by
+  cases h : routerLoanFrom s i amount payload with
+  | none => rfl
+  | some s' =>
+    obtain ⟨_, _, s1, s2, _, hp, hr, _⟩ := router_loan_parts h
+    rw [rruns_routerLoan_fails (cb_start hI (by omega) hp) j n p' hmem] at hr
+    cases hr
+
+/-- Router path: the loan counter is back to zero afterwards. -/
+theorem router_counter_restored {s s' : St} {i amount : Nat} {payload : List RAct} (hI : Inv s)
+    (hi : i < 4) (h : routerLoanFrom s i amount payload = some s') : s'.ctr = 0 :=
+  (router_loan_spec hI (by omega) h).ctr
+
+/-- **The router keeps nothing**: after a successful router flash loan the router's balance of the
+    asset is zero — whatever it held before the loan (stray funds included) and whatever the payload
+    did. -/
+theorem router_keeps_nothing {s s' : St} {i amount : Nat} {payload : List RAct} (hI : Inv s)
+    (hi : i < 4) (h : routerLoanFrom s i amount payload = some s') : getN s'.ab 5 = 0 := by
+  obtain ⟨_, _, s1, s2, s3, hp, hr, hcl, hat⟩ := router_loan_parts h
+  obtain ⟨hI2, _⟩ := rruns_cb (cb_start hI (by omega) hp) hr
+  obtain ⟨_, _, _, _, h5, _⟩ := completeLoan_spec hI2.abLen (by omega) hcl
+  obtain ⟨_, rfl⟩ := afterTrade_ok_of_some hat
+  exact h5
+
+/-- **It pays the vault the quoted amount and forwards all remaining proceeds to the initiator**:
+    with `s2` the state when the payload has finished and `s3` the state after `CompleteLoan`,
+    the quote is `GetPaybackAmount(amount)` under the fee configuration in force (unchanged since the
+    loan was taken), the router held at least that, the vault's balance rose by exactly the quote,
+    the initiator received exactly `router balance − quote`, nobody else's balance moved, and
+    `after_trade` (which only burns the burn fee out of the vault) leads to the final state. -/
+theorem router_pays_quote_forwards_rest {s s' : St} {i amount : Nat} {payload : List RAct}
+    (hI : Inv s) (hi : i < 4) (h : routerLoanFrom s i amount payload = some s') :
+    ∃ s2 s3, completeLoan s2 i amount = some s3 ∧ afterTrade s3 s.bal amount = some s' ∧
+      payback s2 amount = payback s amount ∧
+      payback s amount ≤ getN s2.ab 5 ∧
+      s3.bal = s2.bal + payback s amount ∧
+      s'.bal + fee s.fees.burn amount = s2.bal + payback s amount ∧
+      getN s'.ab i = getN s2.ab i + (getN s2.ab 5 - payback s amount) ∧
+      getN s'.ab 5 = 0 ∧
+      (∀ j, j ≠ 5 → j ≠ i → getN s'.ab j = getN s2.ab j) := by
+  obtain ⟨_, _, s1, s2, s3, hp, hr, hcl, hat⟩ := router_loan_parts h
+  obtain ⟨hs1, _, _, _⟩ := payOut_spec (s := { s with ctr := s.ctr + 1 }) (a := 5) (n := amount)
+    hI.abLen (by omega) hp
+  have e_fees : s1.fees = s.fees := by rw [hs1]
+  obtain ⟨hI2, r2⟩ := rruns_cb (cb_start hI (by omega) hp) hr
+  have hf2 : s2.fees = s.fees := r2.fees.trans e_fees
+  have hpb : payback s2 amount = payback s amount := by unfold payback; rw [hf2]
+  obtain ⟨hge, heq, _, _, h5, hi', hoth⟩ := completeLoan_spec hI2.abLen (by omega) hcl
+  have e_bal : s3.bal = s2.bal + payback s2 amount := by rw [heq]
+  have e_f3 : s3.fees = s.fees := by rw [heq]; exact hf2
+  obtain ⟨hok, hs'⟩ := afterTrade_ok_of_some hat
+  have e_ab : s'.ab = s3.ab := by rw [hs']; rfl
+  have e_b' : s'.bal = s3.bal - fee s3.fees.burn amount := by rw [hs']; rfl
+  simp only [afterTradeOk, Bool.and_eq_true, decide_eq_true_eq] at hok
+  obtain ⟨⟨⟨⟨_, hneed⟩, _⟩, _⟩, _⟩ := hok
+  rw [hpb] at hge e_bal hi'
+  rw [e_f3] at hneed e_b'
+  refine ⟨s2, s3, hcl, hat, hpb, hge, e_bal, ?_, ?_, ?_, ?_⟩
+  · omega
+  · rw [e_ab]; exact hi'
+  · rw [e_ab]; exact h5
+  · intro j h1 h2; rw [e_ab]; exact hoth j h1 h2
+
+/-- preconditions under which nothing but the funds reaching the router decides the outcome of a
+    router loan whose payload only funds the router with `x` from the borrower contract -/
+structure RouterPaybackPre (s : St) (amount x : Nat) : Prop where
+  flOn : s.flOn = true
+  pos : 0 < amount
+  funded : amount ≤ s.bal
+  xpos : 0 < x
+  canFund : x ≤ getN s.ab 3
+  noOverflow : s.bal + getN s.ab 5 + x ≤ U128MAX ∧ s.pend + amount ≤ U128MAX
+    ∧ s.allTime + amount ≤ U128MAX ∧ s.burned + amount ≤ U128MAX
+
+/-- Router path, exact payback: a payload that only funds the router with `x` succeeds **iff**
+    what the router then holds — its balance before the loan, the loan, and `x` — covers
+    `GetPaybackAmount(amount)`; so exactly the quote suffices and one unit less never does. -/
+theorem router_payback_exact {s : St} {i amount x : Nat} (hI : Inv s) (hv : s.fees.valid = true)
+    (hi : i < 4) (hp : RouterPaybackPre s amount x) :
+    (routerLoanFrom s i amount [.fund x]).isSome = true ↔
+      payback s amount ≤ getN s.ab 5 + amount + x := by
+  have hctr := hI.ctr0
+  have hlen := hI.abLen
+  obtain ⟨n1, n2, n3, n4⟩ := hp.noOverflow
+  simp only [VFees.valid, Bool.and_eq_true, decide_eq_true_eq] at hv
+  obtain ⟨⟨⟨hv1, hv2⟩, hv3⟩, hv4⟩ := hv
+  have hf1 : fee s.fees.prot amount ≤ amount := mul_div_le_of_le (le_of_lt hv1)
+  have hf3 : fee s.fees.burn amount ≤ amount := mul_div_le_of_le (le_of_lt hv3)
+  have hfs : fee s.fees.prot amount + fee s.fees.flash amount + fee s.fees.burn amount ≤ amount := by
+    have := three_fees_le amount s.fees.prot s.fees.flash s.fees.burn E18 (by omega)
+    simpa [fee] using this
+  have hfunded := hp.funded
+  have hxpos := hp.xpos
+  have hcan := hp.canFund
+  have hpos := hp.pos
+  have h5 : 5 < s.ab.length := by rw [hlen]; omega
+  -- the loan reaches the router …
+  have hlenA : (setN s.ab 5 (getN s.ab 5 + amount)).length = 6 := by rw [setN_length]; exact hlen
+  have hA5 : getN (setN s.ab 5 (getN s.ab 5 + amount)) 5 = getN s.ab 5 + amount := getN_setN_same _ _ _ h5
+  have hA3 : getN (setN s.ab 5 (getN s.ab 5 + amount)) 3 = getN s.ab 3 := getN_setN_ne _ _ _ _ (by omega)
+  have hpo : payOut { s with ctr := s.ctr + 1 } 5 amount
+      = some { s with ctr := s.ctr + 1, ab := setN s.ab 5 (getN s.ab 5 + amount), bal := s.bal - amount } := by
+    unfold payOut
+    rw [if_neg (by simp only; omega)]
+  -- … and the borrower contract adds x
+  obtain ⟨s2, hfund⟩ : ∃ s2, rrun { s with ctr := s.ctr + 1, ab := setN s.ab 5 (getN s.ab 5 + amount), bal := s.bal - amount } (.fund x) = some s2 := by
+    rw [rrun_fund]; unfold move
+    rw [if_neg (by simp only [hA3]; omega)]
+    exact ⟨_, rfl⟩
+  have hfund' := hfund
+  rw [rrun_fund] at hfund'
+  obtain ⟨hlen2, _, heq2, _, hab2⟩ := move_spec (s := { s with ctr := s.ctr + 1, ab := setN s.ab 5 (getN s.ab 5 + amount), bal := s.bal - amount }) hlenA (by omega) (by omega) hfund'
+  simp only [] at hab2
+  have hg5 : getN s2.ab 5 = getN s.ab 5 + amount + x := by
+    rw [hab2, getN_setN_same _ _ _ (by rw [setN_length, hlenA]; omega),
+      getN_setN_ne _ _ _ _ (by omega), hA5]
+  have e_fees2 : s2.fees = s.fees := by rw [heq2]
+  have e_bal2 : s2.bal = s.bal - amount := by rw [heq2]
+  have e_pend2 : s2.pend = s.pend := by rw [heq2]
+  have e_all2 : s2.allTime = s.allTime := by rw [heq2]
+  have e_bur2 : s2.burned = s.burned := by rw [heq2]
+  have hpb : payback s2 amount = payback s amount := by unfold payback; rw [e_fees2]
+  have hr : rruns { s with ctr := s.ctr + 1, ab := setN s.ab 5 (getN s.ab 5 + amount), bal := s.bal - amount } [.fund x] = some s2 := by
+    rw [rruns_cons_some [] hfund, rruns_nil]
+  constructor
+  · intro h
+    cases hc : routerLoanFrom s i amount [.fund x] with
+    | none => rw [hc] at h; cases h
+    | some s' =>
+      obtain ⟨_, _, t1, t2, t3, tp, tr, tcl, _⟩ := router_loan_parts hc
+      rw [hpo] at tp; injection tp with tp; subst tp
+      rw [hr] at tr; injection tr with tr; subst tr
+      obtain ⟨hge, _⟩ := completeLoan_spec hlen2 (by omega) tcl
+      rw [hpb, hg5] at hge
+      exact hge
+  · intro hx
+    have hpbpos : 0 < payback s amount := by unfold payback; omega
+    obtain ⟨s3, hcl⟩ := completeLoan_some (s := s2) (i := i) (n := amount) hlen2
+      (by rw [hpb]; omega) (by rw [hpb, hg5]; exact hx) (by rw [hpb]; exact hpbpos)
+    rw [router_loan_of_parts hp.flOn hctr hpo hr hcl]
+    obtain ⟨_, heq3, _⟩ := completeLoan_spec hlen2 (by omega) hcl
+    have e_bal3 : s3.bal = s2.bal + payback s2 amount := by rw [heq3]
+    have e_fees3 : s3.fees = s.fees := by rw [heq3]; exact e_fees2
+    have e_pend3 : s3.pend = s.pend := by rw [heq3]; exact e_pend2
+    have e_all3 : s3.allTime = s.allTime := by rw [heq3]; exact e_all2
+    have e_bur3 : s3.burned = s.burned := by rw [heq3]; exact e_bur2
+    rw [hpb, e_bal2] at e_bal3
+    unfold payback at e_bal3 hx
+    unfold afterTrade
+    rw [if_pos]
+    · rfl
+    · simp only [afterTradeOk, Bool.and_eq_true, decide_eq_true_eq, e_fees3, e_bal3, e_pend3, e_all3, e_bur3]
+      refine ⟨⟨⟨⟨?_, ?_⟩, ?_⟩, ?_⟩, ?_⟩ <;> omega
+
+/-- Sender guard: `NextLoan` only by a factory-registered vault — called directly by any account
+    (users, the borrower contract) it is refused and nothing changes. -/
+theorem next_loan_guarded (s : St) (who amount : Nat) (payload : List RAct) :
+    step s (.nextLoanBy who amount payload) = none ∧ Vault.apply s (.nextLoanBy who amount payload) = s :=
+  ⟨rfl, rfl⟩
+
+/-- Sender guard: `CompleteLoan` only by the router itself — called directly by any account it is
+    refused and nothing changes. -/
+theorem complete_loan_guarded (s : St) (who i amount : Nat) :
+    step s (.completeLoanBy who i amount) = none ∧ Vault.apply s (.completeLoanBy who i amount) = s :=
+  ⟨rfl, rfl⟩
+
+/-- More than one asset is refused (`NestedFlashLoansDisabled`); zero assets do nothing at all (the
+    payload is not run). -/
+theorem router_multi_refused_none_noop (s : St) (who a1 a2 : Nat) (payload : List RAct) :
+    step s (.routerLoanMulti who a1 a2 payload) = none ∧ step s (.routerLoanNone who payload) = some s :=
+  ⟨rfl, rfl⟩
+
 /-- non-vacuity + the exact numbers: loan 500 000 at fees 1 % / 0.3 % / 0.1 %: payback 507 000;
     repaying 507 000 succeeds, 506 999 reverts, a nested loan reverts, a deposit reverts. -/
 example :
-    let s0 := Vault.init 0 ⟨10000000000000000, 3000000000000000, 1000000000000000⟩ [5000000, 5000000, 0, 100000, 0]
+    let s0 := Vault.init 0 ⟨10000000000000000, 3000000000000000, 1000000000000000⟩ [5000000, 5000000, 0, 100000, 0, 0]
     let s := reach s0 [.deposit 0 1000000 1000000]
     (payback s 500000 = 507000) ∧ (loanFrom s 500000 [.pay 507000]).isSome = true
       ∧ loanFrom s 500000 [.pay 506999] = none
       ∧ loanFrom s 10000 [.loan 990000 [.pay 999900], .pay 200] = none
       ∧ loanFrom s 500000 [.deposit 5, .pay 507000] = none := by
+  decide
+
+/-- non-vacuity + the exact numbers, router path: same vault, router pre-funded with 300 stray units,
+    loan 500 000 through the router for user 1: payback 507 000. Funding 6 700 (300 + 500 000 + 6 700 =
+    507 000) succeeds and leaves the router with 0 and user 1 unchanged; funding 6 699 reverts; funding
+    8 000 forwards 1 300 to user 1; vault balance 1 000 000 → 1 006 500 (fees 5 000 + 1 500, 500 burned);
+    a nested router loan, a deposit in the payload, an early CompleteLoan that sends the loan to user 0,
+    a stranger's NextLoan all revert. -/
+example :
+    let s0 := Vault.init 0 ⟨10000000000000000, 3000000000000000, 1000000000000000⟩ [5000000, 5000000, 300, 100000, 0, 0]
+    let s := reach s0 [.deposit 0 1000000 1000000, .fundRouter 2 300]
+    let a := Vault.apply s (.routerLoan 1 500000 [.fund 6700])
+    let b := Vault.apply s (.routerLoan 1 500000 [.fund 8000])
+    (getN s.ab 5 = 300) ∧ (payback s 500000 = 507000)
+      ∧ (a.bal, a.pend, a.burned, getN a.ab 5, getN a.ab 1, getN a.ab 3, a.ctr) = (1006500, 5000, 500, 0, 5000000, 93300, 0)
+      ∧ (b.bal, getN b.ab 5, getN b.ab 1, getN b.ab 3) = (1006500, 0, 5001300, 92000)
+      ∧ routerLoanFrom s 1 500000 [.fund 6699] = none
+      ∧ routerLoanFrom s 1 500000 [.fund 8000, .routerLoan 5 7 [.fund 1]] = none
+      ∧ routerLoanFrom s 1 500000 [.deposit 5, .fund 8000] = none
+      ∧ (routerLoanFrom s 1 500000 [.adv [.collect, .pay 5], .fund 7000, .out 2 100]).isSome = true
+      ∧ routerLoanFrom s 1 500000 [.fund 7000, .complete 0 100] = none
+      ∧ step s (.nextLoanBy 1 0 [.out 1 300]) = none := by
   decide
 
 end WW.C06
